@@ -61,13 +61,17 @@ def run(rep, props, replay=None):
         else:
             X = fd.dyadic_matrix(rng, n, m)
             X[:, int(rng.integers(m))] = 1.5          # a point where all curves coincide
+        if i % 6 == 4:
+            X = X + float(rng.choice([2.0 ** 17, -2.0 ** 20, 2.0 ** 23]))      # curves recorded around a large level (exact in doubles)
         d = fd.dense(x, X)
         sc = max(1.0, float(np.max(np.abs(X))))
+        sv = max(1e-300, float(np.max(np.abs(X - X.mean(axis=0)))))            # size of the variation around the mean
         mu = np.asarray(d.mean().values)[0]
         t = runq.add(f"vclose {C.qlit(1e-10 * sc)} (mean opsQ {m}%nat {C.qmat(X)}) {C.qlist(mu)}")
         todo.append((t, "mean", kind, X))
         cov = np.asarray(d.covariance().values)[0]
-        t = runq.add(f"mclose {C.qlit(1e-9 * sc * sc)} (cov_sym {m}%nat {C.qmat(X)}) {C.qmat(cov)}")
+        # rounding of the textbook (two-pass) estimator: eps * level * variation; eps * level^2 would be a one-pass formula
+        t = runq.add(f"mclose {C.qlit(1e-12 * sc * sv + 1e-10 * sv * sv)} (cov_sym {m}%nat {C.qmat(X)}) {C.qmat(cov)}")
         todo.append((t, "covariance", kind, X))
         monitors_cov(rep, rng, d, cov, x, X)
         monitors_history(rep, d, mu, cov, x, X, i)
